@@ -71,6 +71,24 @@ def generate(ctx, profile, maxlen, *, simulate=None, depth=None, minstop=0, maxd
     return progs
 
 
+def rejected_programs(ctx, maxlen):
+    """programs whose last opcode the specification rejects as a machine error (for the oracle binding)"""
+    cfg = (GEN_CFG.replace("@MAXLEN@", str(maxlen)).replace("@MINSTOP@", "0").replace("@MAXDEPTH@", "8")
+           .replace("@REQUIRE@", "{}").replace("@REQMODS@", "{}").replace("INVARIANT Emit\n", "INVARIANT EmitErr\n"))
+    for ln in ("PROPERTY Monotone\n", "INVARIANT Replayable\n", "INVARIANT ResultCanonical\n"):
+        cfg = cfg.replace(ln, "")
+    r = tlc.run("MC_mixed", cfg, workers=8, timeout=1800, heap="8g")
+    if not r["ok"]:
+        raise MachineryError(f"TLC failed on the rejected-extension generator: {r['error'][:600]}")
+    ctx.add_tlc(f"gen:rejected-extensions:mixed:len{maxlen}", r)
+    seen = {}
+    for ln in r["lines"]:
+        tag, _, js = tlc.payload(ln)
+        if tag == "ERRPROG":
+            seen.setdefault(json.dumps(js, sort_keys=True), js)
+    return [seen[k] for k in sorted(seen)]
+
+
 def instantiate(prog, v1, v2, rng, variants=True):
     """symbolic globals/strings -> vocabulary entries; random 1:1 encodings"""
     out = []
@@ -207,6 +225,16 @@ def run_family(ctx, prop, clause_of, nontrivial, rule, want=("steps", "dec", "ch
         it = dict(it)
         it["id"] = len(items)
         items.append(it)
+    if prop == "C09":       # the oracle binding in the other direction (DESIGN 2.5)
+        rej = rejected_programs(ctx, 3 if ctx.quick else 4)
+        ctx.rng.shuffle(rej)
+        for p in rej[: (4000 if ctx.quick else 60000)]:
+            ops, var = instantiate(p, VOCAB[0], SECOND[0], ctx.rng)
+            try:
+                assemble(ops, var)
+            except Exception:  # noqa: BLE001 - not every rejected extension has an encoding (e.g. FRAME at the very end)
+                continue
+            items.append({"id": len(items), "prog": ops, "variants": var, "tag": "spec-rejects"})
     for it in items:
         it["want"] = want
     records = rec_vm.record_many(items)
